@@ -28,8 +28,9 @@ import (
 )
 
 type only struct {
-	IB  []int   `json:"ib"` // nil: no initial basis
-	Tol float64 `json:"tol"`
+	IB    []int   `json:"ib"` // nil: no initial basis
+	Tol   float64 `json:"tol"`
+	Again bool    `json:"again,omitempty"` // the judged call is the second one made with the same slices
 }
 
 type lpCase struct {
@@ -126,7 +127,11 @@ func ratOf(f float64) *big.Rat {
 }
 
 // judge one call of Simplex on the standard-form data (c, A, b) against the verdict of the spec.
-// variant is "nil" (no initial basis), "ib" (explicit feasible initial basis) or "conv" (after Convert).
+// variant is "nil" (no initial basis), "ib" (explicit feasible initial basis) or "conv" (after Convert);
+// with the suffix "-again" the judged call is the SECOND of two consecutive calls made with the very
+// same slices and matrix (Simplex is a function of its arguments: whatever it keeps or does to its
+// operands, the answer to the same data is the same).  The documentation does not say that the
+// operands are left untouched: if the first call changed them the second one is not judged, only counted.
 func (s *state) simplex(c *lpCase, variant string, cv []float64, A *mat.Dense, bv []float64, tol float64, ib []int, checkPoint bool) {
 	sum := s.sum
 	if s.hungNow {
@@ -146,13 +151,39 @@ func (s *state) simplex(c *lpCase, variant string, cv []float64, A *mat.Dense, b
 		ibc = append([]int{}, ib...)
 	}
 	Ac := mat.DenseCopyOf(A)
+	again := strings.HasSuffix(variant, "-again")
+	if again {
+		first := core.CallTimeout(watchdog, func() { golp.Simplex(cc, Ac, bc, tol, ibc) })
+		if first.Hung {
+			s.hangs++
+			s.hungNow = true
+		}
+		if first.Hung || first.Panicked {
+			sum.Count("again_first_call_did_not_return_normally", 1) // reported by the plain variant
+			return
+		}
+		same := mat.Equal(Ac, A) && len(cc) == len(cv) && len(bc) == len(bv) && len(ibc) == len(ib)
+		for i := range cc {
+			same = same && math.Float64bits(cc[i]) == math.Float64bits(cv[i])
+		}
+		for i := range bc {
+			same = same && math.Float64bits(bc[i]) == math.Float64bits(bv[i])
+		}
+		for i := range ibc {
+			same = same && ibc[i] == ib[i]
+		}
+		if !same {
+			sum.Count("again_operands_modified_by_simplex_not_judged", 1)
+			return
+		}
+	}
 	out := core.CallTimeout(watchdog, func() {
 		optF, optX, err = golp.Simplex(cc, Ac, bc, tol, ibc)
 	})
 	sum.Cases++
 	sum.Count("calls_"+variant, 1)
 	fc := *c
-	fc.Only = &only{IB: ib, Tol: tol}
+	fc.Only = &only{IB: ib, Tol: tol, Again: again}
 	// signature: lp:simplex:<variant>:<kind>:<square|wide>:<degenerate|nondegenerate>
 	// (square: m == n, Simplex takes its linear-solve path; degenerate: some feasible basis of the
 	// program has a zero basic variable - the only situation in which pivoting can stall or cycle)
@@ -272,12 +303,18 @@ func (s *state) standard(c *lpCase, seed int64) {
 		return
 	}
 	if c.Only != nil {
-		s.simplex(c, variantOf(c.Only.IB), c.C, A, c.B, c.Only.Tol, c.Only.IB, true)
+		v := variantOf(c.Only.IB)
+		if c.Only.Again {
+			v += "-again"
+		}
+		s.simplex(c, v, c.C, A, c.B, c.Only.Tol, c.Only.IB, true)
 		return
 	}
 	for _, tol := range tols {
 		s.simplex(c, "nil", c.C, A, c.B, tol, nil, true)
 	}
+	// the same slices used for two consecutive calls
+	s.simplex(c, "nil-again", c.C, A, c.B, tols[int(seed+int64(c.ID))%2], nil, true)
 	if c.Excl || c.M == c.N {
 		return
 	}
@@ -288,6 +325,11 @@ func (s *state) standard(c *lpCase, seed int64) {
 		if k := int((seed + int64(c.ID) + int64(i)) % int64(len(fb))); k != 0 {
 			s.simplex(c, "ib", c.C, A, c.B, tols[(i+int(seed))%2], rotate(fb, k), true)
 		}
+	}
+	if len(c.FB) > 0 {
+		// (after the plain calls: a hang of this basis has then been reported by them)
+		fb := c.FB[int(seed+int64(c.ID))%len(c.FB)]
+		s.simplex(c, "ib-again", c.C, A, c.B, tols[0], fb, true)
 	}
 }
 
